@@ -26,9 +26,7 @@
 
 #include "pmem.h"
 #include "psocket.h"
-#ifdef P_OS_SCO
-#  include "ptimeprofiler.h"
-#endif
+#include "ptimeprofiler.h"
 #include "perror-private.h"
 #include "plibsys-private.h"
 #include "psysclose-private.h"
@@ -1527,6 +1525,10 @@ p_socket_io_condition_wait (const PSocket	*socket,
 	struct pollfd	pfd;
 	pint		evret;
 	pint		timeout;
+#  if defined (EINTR) && !defined (P_OS_SCO)
+	PTimeProfiler	*timer;
+	puint64		elapsed;
+#  endif
 
 	if (P_UNLIKELY (socket == NULL)) {
 		p_error_set_error_p (error,
@@ -1551,6 +1553,9 @@ p_socket_io_condition_wait (const PSocket	*socket,
 
 #  ifdef P_OS_SCO
 	p_time_profiler_reset (socket->timer);
+#  elif defined (EINTR)
+	/* Interrupted waits must not start the timeout over again */
+	timer = (timeout > 0) ? p_time_profiler_new () : NULL;
 #  endif
 
 	while (TRUE) {
@@ -1565,9 +1570,23 @@ p_socket_io_condition_wait (const PSocket	*socket,
 			else
 				evret = 0;
 #    else
-			continue;
+			if (timer == NULL)
+				continue;
+
+			elapsed = p_time_profiler_elapsed_usecs (timer) / 1000;
+
+			if (elapsed < (puint64) socket->timeout) {
+				timeout = socket->timeout - (pint) elapsed;
+				continue;
+			} else
+				evret = 0;
 #    endif
 		}
+#  endif
+
+#  if defined (EINTR) && !defined (P_OS_SCO)
+		if (timer != NULL)
+			p_time_profiler_free (timer);
 #  endif
 
 		if (evret == 1)
